@@ -36,7 +36,11 @@ func sigKey(sub string, sig map[string]string) string {
 }
 
 func violate(w *run.W, sub string, sig map[string]string, format string, a ...any) {
+	if _, ok := sig["cause"]; !ok {
+		sig["cause"] = causeUnclassified
+	}
 	w.Count("disagreements_"+sub, 1)
+	w.Count("cause_"+sig["cause"], 1)
 	w.Violate(sub, sig, format, a...)
 	prefix := os.Getenv("C09_TRIAGE")
 	if prefix == "" {
